@@ -29,7 +29,7 @@ func init() {
 		Assumptions: []string{"dates are labelled old/new at generation, at least 1 h from now-expiry, so the oracle never reads the clock", "TTL indexes with a partial filter and key paths that fan out over arrays of sub-documents are not generated"},
 		Batches:     func(tier string) int { return 16 },
 		Require: func(tier string) map[string]int64 {
-			return map[string]int64{"passes": 300, "docs_judged": 3000, "expired_expected": 500, "survivors_expected": 1500, "noop_passes": 50, "collections_without_ttl": 100, "array_dates": 200, "zero_second_indexes": 50, "background_passes_observed": 5}
+			return map[string]int64{"passes": 300, "docs_judged": 3000, "expired_expected": 500, "survivors_expected": 1500, "noop_passes": 50, "collections_without_ttl": 100, "array_dates": 200, "zero_second_indexes": 50, "background_passes_observed": 5, "idle_expiry_checks": 5, "compound_ttl_requests": 40}
 		},
 		Run: runC19,
 	})
@@ -211,6 +211,23 @@ func c19Build(c *fw.Ctx, w *world, r *fw.Rand, now time.Time, forceNoExpiry bool
 		if r.Bool() {
 			w.exec(&drv.Op{Kind: drv.CreateIndex, DB: "d", Coll: cc.name, Index: drv.IndexSpec{Keys: bson.D{{Key: "k", Value: int32(-1)}}, Partial: bson.D{{Key: "g", Value: bson.D{{Key: "$gt", Value: int32(2)}}}}}})
 		}
+		// a compound index is never a TTL index: asking for one with
+		// expireAfterSeconds must be refused (single-field restriction), and
+		// the old dates in its first field must survive every pass
+		if r.Bool() {
+			for _, p := range paths {
+				if used[p] {
+					continue
+				}
+				e := fw.Pick(r, []int32{0, 60})
+				c.Count("compound_ttl_requests", 1)
+				if res := w.exec(&drv.Op{Kind: drv.CreateIndex, DB: "d", Coll: cc.name, Index: drv.IndexSpec{Keys: bson.D{{Key: p, Value: int32(1)}, {Key: "k", Value: int32(1)}}, Expire: &e}}); res.Err == "" {
+					c.Violate("ttl:compound-accepted", fmt.Sprintf("a compound index {%s:1,k:1} with expireAfterSeconds %d was accepted (TTL indexes are single-field)", p, e), map[string]interface{}{"history": w.history()})
+					return nil, false
+				}
+				break
+			}
+		}
 		colls = append(colls, cc)
 	}
 	return colls, true
@@ -361,6 +378,52 @@ func c19Case(c *fw.Ctx, w *world, r *fw.Rand) {
 }
 
 // c19Background checks the expiry goroutine on its own logical clock.
+// c19TimePasses: a document that is not expired when it is written becomes
+// expired merely because time passes, on an otherwise idle database (no
+// commit in between). Once its date is certainly older than the interval, a
+// background pass that began after that moment must have removed it, and a
+// document dated in the future must still be there. The clock is only used
+// to wait; the verdict is taken on the pass counter.
+func c19TimePasses(c *fw.Ctx, w *world, begun, ended *atomic.Int64) bool {
+	e := int32(1)
+	if res := w.exec(&drv.Op{Kind: drv.CreateIndex, DB: "d", Coll: "tick", Index: drv.IndexSpec{Keys: bson.D{{Key: "at", Value: int32(1)}}, Expire: &e}}); res.Err != "" {
+		c.Violate("ttl:index-create", "creating a TTL index failed: "+res.Err, map[string]interface{}{"history": w.history()})
+		return false
+	}
+	t0 := time.Now()
+	docs := []bson.D{{{Key: "_id", Value: "soon"}, {Key: "at", Value: primitive.NewDateTimeFromTime(t0)}}, {{Key: "_id", Value: "later"}, {Key: "at", Value: primitive.NewDateTimeFromTime(t0.Add(time.Hour))}}}
+	if res := w.exec(&drv.Op{Kind: drv.InsertMany, DB: "d", Coll: "tick", Docs: docs, Ordered: true}); res.Err != "" {
+		c.Inconclusive("setup insert failed: " + res.Err)
+		return false
+	}
+	// idle until the first document is certainly older than one second
+	for time.Since(t0) < 1500*time.Millisecond {
+		time.Sleep(50 * time.Millisecond)
+	}
+	b0 := begun.Load()
+	deadline := time.Now().Add(30 * time.Second)
+	for !(begun.Load() >= b0+2 && ended.Load() >= b0+2) {
+		if time.Now().After(deadline) {
+			c.Inconclusive("the expiry goroutine did not complete two passes within 30 s on an idle database")
+			return false
+		}
+		time.Sleep(5 * time.Millisecond)
+	}
+	c.Count("idle_expiry_checks", 1)
+	cont := contentsOf(w.engine.Catalog())["d.tick"]
+	_, soon := cont[string(gen.ValueBytes("soon"))]
+	_, later := cont[string(gen.ValueBytes("later"))]
+	if soon {
+		c.Violate("ttl:background-kept-idle", "a document whose date became older than the interval while the database was idle is still present after a full background pass that began afterwards", map[string]interface{}{"history": w.history()})
+		return false
+	}
+	if !later {
+		c.Violate("ttl:background-removed", "a document dated in the future was removed by the background pass", map[string]interface{}{"history": w.history()})
+		return false
+	}
+	return true
+}
+
 func c19Background(c *fw.Ctx) {
 	rounds := c.N(6, 40)
 	for k := 0; k < rounds; k++ {
@@ -412,6 +475,9 @@ func c19Background(c *fw.Ctx) {
 				time.Sleep(5 * time.Millisecond)
 			}
 			c.Count("background_passes_observed", 1)
+			if !c19TimePasses(c, w, &begun, &ended) {
+				return
+			}
 			cont := contentsOf(w.engine.Catalog())
 			for _, cc := range colls {
 				ns := "d." + cc.name
